@@ -145,4 +145,77 @@ def verify_reserved():
     return _finish(fv, ex, outs, log, m, [], [])
 
 
-ALL = [verify_reserved, lambda: verify_simple("R"), lambda: verify_simple("W"), lambda: verify_simple("RW"), lambda: verify_per_bit("RW1C"), lambda: verify_per_bit("RW1S")]
+def verify_init(cls):
+    """the constructors, for EVERY shape and initial value: the shape goes unchanged to FieldAction.__init__ together with the class's access
+    mode (R: r, W: w, RW / RW1C / RW1S: rw, reserved: nc); the extra members have the documented names, each with that very shape (strobes: 1
+    bit); the storing actions build ONE storage signal with the shape and the `init` argument as given (so the reset value is `init`)"""
+    from vf.pyvc.engine import DictLit, Raised
+    fv = FnVerifier(f"csr.action.{cls}.__init__", [])
+    fn = find_def(FILE, f"{cls}.__init__")
+    ex = Exec(FILE, cls, axioms=[])
+    shape, init = Opaque("shape argument"), Opaque("init argument")
+    sup, sigs = [], []
+    ex.contracts["In"] = lambda ex_, recv, a, k, q, node: [(("In", a[0]), q)]
+    ex.contracts["Out"] = lambda ex_, recv, a, k, q, node: [(("Out", a[0]), q)]
+    ex.contracts["super"] = lambda ex_, recv, a, k, q, node: [(Opaque("super()"), q)]
+
+    def c_super_init(ex_, recv, a, k, q, node):
+        sup.append((tuple(a), dict(k)))
+        return [(NONE, q), (Raised("refused-by-FieldAction.__init__"), q.fork())]
+    ex.contracts["super().__init__"] = c_super_init
+
+    def c_signal(ex_, recv, a, k, q, node):
+        obj = SymObj("Signal", "storage")
+        sigs.append((tuple(a), dict(k), obj))
+        return [(obj, q)]
+    ex.contracts["Signal"] = c_signal
+    self_ = SymObj(cls, "self")
+    stores = cls in ("RW", "RW1C", "RW1S")
+    q = Path(); q.env.update({"self": self_, "shape": shape})
+    if stores:
+        q.env["init"] = init
+    outs = ex.run(fn, q)
+    fv.paths = len(outs)
+    want_access = {"R": "r", "W": "w", "RW": "rw", "RW1C": "rw", "RW1S": "rw", "_Reserved": "nc"}[cls]
+    want_members = {"R": {"r_data": ("In", shape), "r_stb": ("Out", 1)}, "W": {"w_data": ("Out", shape), "w_stb": ("Out", 1)},
+                    "RW": {"data": ("Out", shape)}, "RW1C": {"data": ("Out", shape), "set": ("In", shape)},
+                    "RW1S": {"data": ("Out", shape), "clear": ("In", shape)}, "_Reserved": {}}[cls]
+    n_ok = 0
+    for k, o in enumerate(outs):
+        p, lab = o.path, f"path{k}"
+        if o.kind == "raise":
+            fv.add("the-constructor-itself-refuses-nothing", lab, p.pc, z3.BoolVal(o.exc.startswith("refused-by-")))
+            continue
+        n_ok += 1
+    fv.add("FieldAction.__init__-called-once", "all", [], z3.BoolVal(len(sup) == 1))
+    if len(sup) == 1:
+        a, kw = sup[0]
+        acc = kw.get("access", a[1] if len(a) > 1 else None)
+        fv.add("shape-handed-over-unchanged", "all", [], z3.BoolVal((a[:1] == (shape,)) or kw.get("shape") is shape))
+        fv.add(f"access-mode-is-{want_access}", "all", [], z3.BoolVal(isinstance(acc, Opaque) and acc.what == f"str:{want_access}"))
+        mem = kw.get("members", a[2] if len(a) > 2 else None)
+        got = mem.items if isinstance(mem, DictLit) else ({} if mem is None and not want_members else None)
+        fv.add("extra-members-are-a-literal-table", "all", [], z3.BoolVal(got is not None))
+        if got is not None:
+            fv.add("exactly-the-documented-extra-members", "all", [], z3.BoolVal(set(got) == set(want_members)))
+            for nm, (direction, sh) in want_members.items():
+                g = got.get(nm)
+                ok = isinstance(g, tuple) and len(g) == 2 and g[0] == direction and \
+                    ((g[1] is shape) if sh is shape else (isinstance(g[1], (z3.ArithRef, int)) and z3.is_true(z3.simplify(ex.toint(g[1]) == sh))))
+                fv.add(f"member:{nm}", "all", [], z3.BoolVal(bool(ok)))
+    if stores:
+        ok = len(sigs) == 1 and sigs[0][0] == (shape,) and set(sigs[0][1]) == {"init"} and sigs[0][1]["init"] is init
+        fv.add("one-storage-signal-with-the-shape-and-the-init-value-as-given", "all", [], z3.BoolVal(bool(ok)))
+        for k, o in enumerate(outs):
+            if o.kind != "raise":
+                kept = [v for k_, v in o.path.heap.items() if k_[0] == id(self_)]
+                fv.add("storage-kept-on-the-action", f"path{k}", o.path.pc, z3.BoolVal(len(sigs) == 1 and any(v is sigs[0][2] for v in kept)))
+    else:
+        fv.add("no-storage", "all", [], z3.BoolVal(not sigs))
+    fv.add("cover:accepting-paths", "vacuity", [], z3.BoolVal(n_ok >= 1))
+    fv.add_engine_obligations(ex)
+    return fv
+
+
+INITS = [lambda c=c: verify_init(c) for c in ("R", "W", "RW", "RW1C", "RW1S", "_Reserved")]
+ALL = INITS + [verify_reserved, lambda: verify_simple("R"), lambda: verify_simple("W"), lambda: verify_simple("RW"), lambda: verify_per_bit("RW1C"), lambda: verify_per_bit("RW1S")]
